@@ -4,7 +4,7 @@
   Proved so far: the building blocks on which the comparison of two fields rests agree with the
   spec's wording; every error carries the rule's code.  The document-level iff is explored by the
   check (each generated document is judged against the executable spec), and is false in
-  general (known finding F15, `f15_witness`).
+  general (known finding F15, `f15_regression`).
 -/
 import GqlVerif.Spec.Merge
 import GqlVerif.Thm.C13
@@ -120,9 +120,10 @@ def f15Doc : Document :=
                     fld (some 42) 28 [fld (some 44) 24 []], fld (some 42) 28 [spr 50]]],
     frag 50 [spr 52], frag 52 [fld (some 44) 26 []] ]
 
-/-- **F15 (known finding).**  FieldsInSetCanMerge fails for this document (`x: name` against
-    `x: nn` under the two `t`), the rule does not report it. -/
-theorem f15_witness : MergeViolated exSchema f15Doc ∧ ¬ fires .overlappingFieldsCanBeMerged exSchema f15Doc := by
+/-- **F15 (repaired).**  FieldsInSetCanMerge fails for this document (`x: name` against `x: nn`
+    under the two `t`); before the repair the rule did not report it (the fragments visited while
+    the two `g` were compared were skipped when the two `t` were), now it does. -/
+theorem f15_regression : MergeViolated exSchema f15Doc ∧ fires .overlappingFieldsCanBeMerged exSchema f15Doc := by
   constructor
   · rw [mergeViolated_iff]; decide +kernel
   · decide +kernel
